@@ -30,7 +30,13 @@ func ZZC06(n int) {
 	r.Handle("/t/{x}/k", &hnd{id: 2}, nil, "GET")
 	r.Handle("/g", &hnd{id: 3}, nil, "GET")
 	wr, rd := n/10%10, n%10
-	cleans := wr == 4
+	wr2 := -1
+	if n/100%10 == 1 {
+		wr2 = (wr + 1) % 4
+	}
+	cleans := wr == 4 || wr2 == 4
+	// writers 2 (Remove), 3 (toggle) and 4 (Clean) change what GET /g may answer
+	touchesGet := func(k int) bool { return k == 2 || k == 3 || k == 4 }
 
 	writer := func(k int) func() {
 		return func() {
@@ -73,8 +79,8 @@ func ZZC06(n int) {
 			o2 = zzServePriv(r, "GET", "/t/au")
 		}
 	}
-	if n/100%10 == 1 {
-		zzv.Par(writer(wr), writer((wr+1)%4), reader)
+	if wr2 >= 0 {
+		zzv.Par(writer(wr), writer(wr2), reader)
 	} else {
 		zzv.Par(writer(wr), reader)
 	}
@@ -85,7 +91,7 @@ func ZZC06(n int) {
 	case 0: // the toggled route, GET: one of its handlers, 404 or 405
 		ok := out.o.id == 3 || out.o.id == 12 || out.o.id == id404 || out.o.id == id405
 		zzv.Assert(ok, "toggled-route:foreign-or-nil-handler")
-		if wr == 0 || wr == 1 || wr == 5 {
+		if !touchesGet(wr) && !touchesGet(wr2) {
 			zzv.Assert(out.o.id == 3, "toggled-route:GET-disturbed-by-an-unrelated-write")
 		}
 	case 5:
